@@ -8,7 +8,7 @@ MANIFEST = dict(
     design='4/C08')
 
 RULE = 'histories incl. unknown nodes, missing/undecodable Node ID and F-SEID, equal CP SEIDs across peers, Create PDRs with and without UE IP'
-GEN = dict(weights=dict(est=20, mod=20, dele=10, asr=10, hb=8, dup=6), big_seids=True)
+GEN = dict(weights=dict(est=20, mod=20, dele=10, asr=10, hb=8, dup=6), big_seids=True, p_alias=0.06)
 N_QUICK, N_THOROUGH = 120, 3000
 
 
